@@ -158,6 +158,54 @@ def _run_unit(modname, unit_name, tier, seed):
     return res
 
 
+def _crashed_result(n, why):
+    return dict(unit=n, obligations=[], paths=0, infeasible=0, unsupported=[], notes=[], assumptions=[], trusted=[], bounded=[],
+                seconds=0.0, crashed=why, functions={}, kind="", extra={}, concrete=[])
+
+
+def run_pool(tasks, jobs, progress=None, stall_s=None):
+    """tasks: list of (key, modname, unit name, tier, seed).  Runs them in a process pool and returns {key: result}.
+    The pool uses the *spawn* start method: forking a parent that already runs helper threads (the executor's own queue
+    threads, z3) has deadlocked workers in a futex on this image.  A watchdog turns a stalled pool (no unit finishing for
+    `stall_s` seconds) into crashed units instead of a hang: the verdict is then 'checker failure', never a wait for ever."""
+    import multiprocessing as mp
+    from concurrent.futures import wait, FIRST_COMPLETED
+    results = {}
+    if stall_s is None:
+        stall_s = 3600 if any(t[3] == "thorough" for t in tasks) else 1500
+    pool = ProcessPoolExecutor(max_workers=jobs, mp_context=mp.get_context("spawn"))
+    try:
+        futs = {pool.submit(_run_unit, m, n, tier, seed): (key, n) for key, m, n, tier, seed in tasks}
+        pending = set(futs)
+        last = time.time()
+        while pending:
+            done, pending = wait(pending, timeout=15, return_when=FIRST_COMPLETED)
+            for f in done:
+                key, n = futs[f]
+                try:
+                    results[key] = f.result()
+                except Exception as e:
+                    results[key] = _crashed_result(n, f"worker failed: {e!r}")
+                if progress:
+                    progress(results[key])
+                last = time.time()
+            if pending and time.time() - last > stall_s:
+                for f in pending:
+                    key, n = futs[f]
+                    results[key] = _crashed_result(n, f"pool stalled: no unit finished for {stall_s} s; unit abandoned")
+                    if progress:
+                        progress(results[key])
+                for pr in list(getattr(pool, "_processes", {}).values()):
+                    try:
+                        pr.kill()
+                    except Exception:
+                        pass
+                pending = set()
+    finally:
+        pool.shutdown(wait=False, cancel_futures=True)
+    return results
+
+
 def run_units(modname, names, tier, seed, jobs=None, progress=None):
     jobs = jobs or min(16, os.cpu_count() or 4)
     results = {}
@@ -167,16 +215,4 @@ def run_units(modname, names, tier, seed, jobs=None, progress=None):
             if progress:
                 progress(results[n])
         return results
-    with ProcessPoolExecutor(max_workers=jobs) as pool:
-        futs = {pool.submit(_run_unit, modname, n, tier, seed): n for n in names}
-        for f in as_completed(futs):
-            n = futs[f]
-            try:
-                results[n] = f.result()
-            except Exception:
-                results[n] = dict(unit=n, obligations=[], paths=0, infeasible=0, unsupported=[], notes=[],
-                                  assumptions=[], trusted=[], bounded=[], seconds=0.0,
-                                  crashed=traceback.format_exc(), functions={}, kind="", extra={}, concrete=[])
-            if progress:
-                progress(results[n])
-    return results
+    return run_pool([(n, modname, n, tier, seed) for n in names], jobs, progress)
